@@ -19,6 +19,8 @@ func main() {
 	switch os.Args[1] {
 	case "vc":
 		vcCmd(os.Args[2:])
+	case "check":
+		checkCmd(os.Args[2:])
 	default:
 		fmt.Fprintln(os.Stderr, "unknown command")
 		os.Exit(2)
